@@ -43,7 +43,7 @@ func (g *Gen) e() *Engine { return g.w.e }
 // symText: text of symbolic length 0..maxLen with array-backed content.
 func (g *Gen) symText(s *State, name string, maxLen int) *SVal {
 	e := g.e()
-	if g.FixLen != nil {
+	if g.FixLen != nil && maxLen <= 4096 { // (longer texts stay symbolic: a concrete multi-gigabyte text is not an option)
 		n := g.FixLen(maxLen)
 		arr := ArrVar(e.freshName(name + "_arr"))
 		vec := make([]*Term, n)
